@@ -33,7 +33,8 @@ package engine
 //@ ensures result2 == len(text) || (len(result1) == 0 && txt.blankOnly(text))
 // the error flag is set exactly when some block's parse reported errors (it accumulates over all blocks)
 //@ ensures result4 == exists(k, 0, len(result3), result3[k] != nil)
-//@ loop 1 invariant hasErrors == exists(k, 0, len(errs), errs[k] != nil)
+//@ loop 1 invariant implies(hasErrors, exists(k, 0, len(errs), errs[k] != nil))
+//@ loop 1 invariant implies(!hasErrors, forall(k, 0, len(errs), errs[k] == nil))
 //@ loop 1 invariant implies(len(blocks) > 0, totalBytesConsumed == len(text) || exists(k, totalBytesConsumed, len(text), txt.nb(text, k)))
 //@ loop 1 invariant btEach(blocks, text)
 // (the chain of offsets is carried through the loop in terms of the blocks' creation-time summaries bS/bE, which need no
